@@ -48,7 +48,8 @@ PROPS = {
                        "writer's tag constants, lets length binders govern payloads and routes each binder into the "
                        "constructor slot the writer filled (G2/G6); sequence readers are exhaustive (G4/G9); floats and "
                        "integers travel through same-type to_be_bytes/from_be_bytes (P1/P3); the byte fast paths copy between "
-                       "equal types (U2); no decoder depends on the remaining length (R4).",
+                       "equal types (U2); no decoder depends on the remaining length (R4); the entry points hand out the bytes "
+                       "of this call only: no static / thread-local state, a fresh context and output per call (S1/S5).",
         "assumptions": [STATIC_ONLY, THIRD_PARTY + " and their conversions are mutually inverse (to_string/parse, "
                         "to_be_bytes/from_signed_bytes_be, from_local_datetime, UTF-16 encode/decode)"],
         "trusted_base": MIR_TB,
@@ -136,7 +137,8 @@ PROPS = {
                        "(G2, by induction over nested codecs), sequence readers consume the terminator / all counted items "
                        "(G4, G9, T12, T13), no decoder looks at the remaining length (R4), an evolved record moves the parent "
                        "cursor over all declared chunks exactly once whatever the reader's version (R5) while field reads happen "
-                       "in regions that do not move it (R1), the constructor index is read once (T3).",
+                       "in regions that do not move it (R1), the constructor index is read once (T3); the primitive readers and "
+                       "the varint routines consume exactly the bytes their writers emit (P1/P3, B).",
         "assumptions": ["the embedded + stored-version-0 + removal case is excluded (no framing in the format)", STATIC_ONLY],
         "trusted_base": MIR_TB,
     },
@@ -166,7 +168,8 @@ PROPS = {
                        "exactly once), one numbering function starting at 1 used by both sides and no other writer of the "
                        "tables (T11, S3), a back-reference is a VarI32 of at most 5 bytes (B6), emission order equals stream "
                        "order except for the known header finding (O1), derived writers emit fields in declaration order, "
-                       "which is the order the reader uses (D1).",
+                       "which is the order the reader uses (D1), sequence writers emit every element once, in iteration order, "
+                       "straight into the one context (G4).",
         "assumptions": ["not decided: the decoded string sequence for a concrete interleaving (dynamic)"],
         "trusted_base": MIR_TB,
     },
